@@ -27,11 +27,43 @@ def subst(t, mapping: Dict[Term, Term]):
     if isinstance(t, tuple):
         if t in mapping:
             return mapping[t]
+        # a parameter that is called: f(x) with f := obj.m  becomes  obj.m(x);  f := g  becomes  g(x)
+        if t and t[0] == "call" and t[1] is None and ("name", t[2]) in mapping:
+            fn = mapping[("name", t[2])]
+            args = tuple(subst(x, mapping) for x in t[3])
+            kw = tuple(subst(x, mapping) for x in t[4]) if isinstance(t[4], tuple) else t[4]
+            if isinstance(fn, tuple) and fn and fn[0] == "attr":
+                return ("call", fn[1], fn[2], args, kw)
+            if isinstance(fn, tuple) and fn and fn[0] == "name":
+                return ("call", None, fn[1], args, kw)
         return tuple(subst(x, mapping) for x in t)
     return t
 
 
-def inline_self_calls(t, repo: Repo, cls_name: str, depth: int = 0):
+_BINDERS = {"forall": (1,), "exists": (1,), "count": (1,), "concat": (1,), "comp": (2,)}  # tag -> indexes of the domain (evaluated outside the binder)
+
+
+def shift_bv(t, by: int):
+    """Renumber the bound variables of a closed helper skeleton so that it can be placed under ``by`` binders."""
+    if by == 0 or not isinstance(t, tuple):
+        return t
+    if t and t[0] == "bv" and len(t) == 3:
+        return ("bv", t[1] + by, t[2])
+    return tuple(shift_bv(x, by) for x in t)
+
+
+def _level_children(t, level: int):
+    """(child, level of the child) for every tuple child of a term"""
+    if t and isinstance(t[0], str) and t[0] in _BINDERS:
+        outside = _BINDERS[t[0]]
+        for i, x in enumerate(t):
+            yield i, x, (level if i in outside else level + 1)
+    else:
+        for i, x in enumerate(t):
+            yield i, x, level
+
+
+def inline_self_calls(t, repo: Repo, cls_name: str, depth: int = 0, level: int = 0):
     """Replace ``self.m(args)`` by the skeleton of m (one level, simple argument shapes)."""
     if not isinstance(t, tuple):
         return t
@@ -60,8 +92,41 @@ def inline_self_calls(t, repo: Repo, cls_name: str, depth: int = 0):
                         if m.vararg is not None:
                             mapping[("name", "va")] = ("tuple", tuple(args[n_pos:]))
                 if ok:
-                    return inline_self_calls(_renorm(subst(body, mapping)), repo, cls_name, depth + 1)
-    out = tuple(inline_self_calls(x, repo, cls_name, depth) for x in t)
+                    return inline_self_calls(_renorm(subst(shift_bv(body, level), mapping)), repo, cls_name, depth + 1, level)
+    out = tuple(inline_self_calls(x, repo, cls_name, depth, lv) if isinstance(x, tuple) else x for _i, x, lv in _level_children(t, level))
+    return _renorm(out) if out != t else out
+
+
+def inline_helpers(t, repo: Repo, fi: FuncInfo, keep: set, depth: int = 0, level: int = 0):
+    """Replace calls of in-repo helpers that the specification does not mention (`keep` = call names of the
+    specification) by the helper's own skeleton: module-level functions of the same module, and static / class methods
+    called through the class or `cls`.  Two levels, simple positional arguments."""
+    if not isinstance(t, tuple):
+        return t
+    if t and t[0] == "call" and t[2] not in keep and depth < 2 and not t[4]:
+        callee = None
+        recv = t[1]
+        if recv is None:
+            callee = fi.module.functions.get(t[2])
+        elif isinstance(recv, tuple) and recv[0] == "name" and fi.cls is not None and recv[1] in ("cls", fi.cls.name):
+            m = repo.method(fi.cls.name, t[2])
+            if m is not None and (m.is_static or m.is_classmethod):
+                callee = m
+        elif isinstance(recv, tuple) and recv[0] == "name" and recv[1] == "self" and fi.cls is not None:
+            m = repo.method(fi.cls.name, t[2])
+            if m is not None and not m.is_static and not m.is_classmethod and not any("property" in d for d in m.decorators):
+                callee = m
+        if callee is not None and callee is not fi and callee.vararg is None:
+            try:
+                body = func_term(callee)
+            except AnalysisError:
+                body = None
+            params = callee.params if (callee.cls is None or callee.is_static) else callee.params[1:]
+            if body is not None and len(params) == len(t[3]) and not any(isinstance(a, tuple) and a and a[0] == "star" for a in t[3]):
+                # func_term names the parameters a0, a1, ... (after self/cls)
+                mapping: Dict[Term, Term] = {("name", f"a{i}"): a for i, a in enumerate(t[3])}
+                return inline_helpers(_renorm(subst(shift_bv(body, level), mapping)), repo, callee, keep, depth + 1, level)
+    out = tuple(inline_helpers(x, repo, fi, keep, depth, lv) if isinstance(x, tuple) else x for _i, x, lv in _level_children(t, level))
     return _renorm(out) if out != t else out
 
 
@@ -604,6 +669,17 @@ def check_skeleton(ctx: Ctx, rule: str, fi: FuncInfo, specs: Sequence[str], what
             ctx.ok(rule, fi.where, f"{what} (both sides inlined): {show(inl)}", fi.node, fi)
             return True
         spec_terms = spec_terms + spec_inl
+    # private helpers the specification does not talk about are looked through
+    spec_calls = {v[5:] for sp in spec_terms for v in vocabulary(sp) if v.startswith("call:")}
+    try:
+        looked = inline_helpers(impl, ctx.repo, fi, spec_calls)
+    except Exception:  # pylint: disable=broad-except
+        looked = impl
+    if looked != impl:
+        if looked in spec_terms:
+            ctx.ok(rule, fi.where, f"{what} (private helpers looked through): {show(looked)[:300]}", fi.node, fi)
+            return True
+        cands.append(looked)
     # (2) equal as functions of their atoms (case analyses restructured, guards nested differently, ...)
     for c in cands:
         for sp in spec_terms:
